@@ -1,0 +1,50 @@
+//go:build verif
+
+package jsonapi
+
+// Equal / EqualStrict (C17): proved free of panics for resources whose values are
+// typed as the Resource interface promises, and to hold only between resources
+// of the same type name (and, strict form, the same id). The comparison of
+// values goes through reflect.DeepEqual and fmt.Sprintf, which are not modelled:
+// nothing is claimed about which values compare equal.
+
+//@ func Equal$1
+//@ props C17
+//@ requires in-range: 0 <= i && i < len(*r1Attrs) && 0 <= j && j < len(*r1Attrs)
+//@ func Equal$2
+//@ props C17
+//@ requires in-range: 0 <= i && i < len(*r2Attrs) && 0 <= j && j < len(*r2Attrs)
+//@ func Equal$3
+//@ props C17
+//@ requires in-range: 0 <= i && i < len(*r1Rels) && 0 <= j && j < len(*r1Rels)
+//@ func Equal$4
+//@ props C17
+//@ requires in-range: 0 <= i && i < len(*r2Rels) && 0 <= j && j < len(*r2Rels)
+
+//@ spec relsOf(l []Rel, r Resource) = forall k int :: 0 <= k && k < len(l) ==> l[k].FromName in R_rels($rh, r) && R_rels($rh, r)[l[k].FromName] == l[k]
+
+//@ func Equal
+//@ flag absolute-quantifiers
+//@ props C17
+//@ requires nonnil: r1 != nil && r2 != nil
+//@ modifies new[Attr], new[Rel], new[string], new[any]
+//@ ensures same-type-name: result ==> R_type($rh, r1).Name == R_type($rh, r2).Name
+//@ loop 0 invariant frame: unchanged(heap[Attr]) && unchanged(heap[[]Attr]) && unchanged(heap[Rel]) && unchanged(heap[[]Rel]) && unchanged(heap[any])
+//@ loop 1 invariant frame: unchanged(heap[Attr]) && unchanged(heap[[]Attr]) && unchanged(heap[Rel]) && unchanged(heap[[]Rel]) && unchanged(heap[any])
+//@ loop 2 invariant frame: unchanged(heap[Attr]) && unchanged(heap[[]Attr]) && unchanged(heap[Rel]) && unchanged(heap[[]Rel]) && unchanged(heap[any])
+//@ loop 3 invariant frame: unchanged(heap[Attr]) && unchanged(heap[[]Attr]) && unchanged(heap[Rel]) && unchanged(heap[[]Rel]) && unchanged(heap[any])
+//@ loop 4 invariant frame: unchanged(heap[Attr]) && unchanged(heap[[]Attr]) && unchanged(heap[Rel]) && unchanged(heap[[]Rel]) && unchanged(heap[any])
+//@ loop 5 invariant frame: unchanged(heap[Attr]) && unchanged(heap[[]Attr]) && unchanged(heap[Rel]) && unchanged(heap[[]Rel]) && unchanged(heap[any])
+//@ loop 0 invariant l: cap(r1Attrs) == 0 || fresh(r1Attrs)
+//@ loop 1 invariant l: cap(r2Attrs) == 0 || fresh(r2Attrs)
+//@ loop 2 invariant l: len(r1Attrs) == len(r2Attrs)
+//@ loop 3 invariant l: (cap(r1Rels) == 0 || fresh(r1Rels)) && relsOf(r1Rels, r1)
+//@ loop 4 invariant l: (cap(r2Rels) == 0 || fresh(r2Rels)) && relsOf(r2Rels, r2) && relsOf(r1Rels, r1) && r1Rels == pre(r1Rels) && (cap(r2Rels) == 0 || ptr(r2Rels) >= ptr(r1Rels) + cap(r1Rels)) && ((ptr(r2Rels) == ptr(pre(r2Rels)) && cap(r2Rels) == cap(pre(r2Rels))) || loopfresh(r2Rels)) && loopkept(heap[Rel], pre(r2Rels)) && loopold(r1Rels)
+//@ loop 5 invariant l: len(r1Rels) == len(r2Rels) && relsOf(r2Rels, r2) && relsOf(r1Rels, r1)
+
+//@ func EqualStrict
+//@ props C17
+//@ requires nonnil: r1 != nil && r2 != nil
+//@ modifies new[Attr], new[Rel], new[string], new[any]
+//@ ensures same-id: result ==> str(R_get($rh, r1, "id")) == str(R_get($rh, r2, "id"))
+//@ ensures same-type-name: result ==> R_type($rh, r1).Name == R_type($rh, r2).Name
